@@ -230,7 +230,6 @@ class StingyConfigurator(pg.All):
         super().__init__(*propositions, variable=id)
 
     @property
-    @functools.lru_cache
     def ge_polyhedron(self) -> pnd.ge_polyhedron_config:
 
         """
@@ -240,12 +239,25 @@ class StingyConfigurator(pg.All):
             -------
                 out : :class:`puan.ndarray.ge_polyhedron_config`
         """
-        ge_polyhedron = self.to_ge_polyhedron(True)
-        return pnd.ge_polyhedron_config(
-            ge_polyhedron, 
-            default_prio_vector=ge_polyhedron.A.construct(self.default_prios),
-            variables=ge_polyhedron.variables, 
-            index=ge_polyhedron.index, 
+        # Cached on this instance and not by equality, since two configurators
+        # may be equal (same id) and still hold different propositions. 
+        if not hasattr(self, "_cached_ge_polyhedron"):
+            ge_polyhedron = self.to_ge_polyhedron(True)
+            self._cached_ge_polyhedron = pnd.ge_polyhedron_config(
+                ge_polyhedron, 
+                default_prio_vector=ge_polyhedron.A.construct(self.default_prios),
+                variables=ge_polyhedron.variables, 
+                index=ge_polyhedron.index, 
+            )
+        return self._cached_ge_polyhedron
+
+    def __getstate__(self) -> dict:
+        # cached results are not a part of the configurator
+        return dict(
+            filter(
+                lambda x: not x[0].startswith("_cached_"), 
+                self.__dict__.items(),
+            )
         )
 
     @property
@@ -286,7 +298,6 @@ class StingyConfigurator(pg.All):
             )
         )
 
-    @functools.lru_cache
     def leafs(self) -> typing.List[puan.variable]:
 
         """
@@ -296,17 +307,19 @@ class StingyConfigurator(pg.All):
             -------
                 out : List[:class:`variable<puan.variable>`]
         """
-        flatten = self.flatten()
-        return sorted(
-            set(
-                itertools.chain(
-                    filter(
-                        lambda x: type(x) == puan.variable,
-                        flatten
+        if not hasattr(self, "_cached_leafs"):
+            flatten = self.flatten()
+            self._cached_leafs = sorted(
+                set(
+                    itertools.chain(
+                        filter(
+                            lambda x: type(x) == puan.variable,
+                            flatten
+                        ),
                     ),
-                ),
+                )
             )
-        )
+        return self._cached_leafs
     
 
     def select(self, *prios: typing.List[typing.Dict[str, int]], solver: typing.Callable = None, only_leafs: bool = False) -> itertools.starmap:
